@@ -57,6 +57,8 @@ def scenario(big: bool = False) -> Any:
                 m.pop("rvobj")
             if m.get("timeout") is not None and float(m["timeout"]) <= 0 and m["kind"] != "async":
                 m["timeout"] = None       # a non-positive label on a sync function is not claimed either way (its future is never "done" at once)
+            if m["kind"] == "annret":
+                m["out"], m["timeout"], m["dur"] = "ret", None, 0.0      # it just returns its value (declared `-> int`, whatever the value is)
             kn = m.pop("kwnames")
             if kn and m["kind"] in ("async", "sync"):
                 m["kwnames"] = kn
@@ -70,7 +72,7 @@ def scenario(big: bool = False) -> Any:
         d["drain"] = 0.0
         return d
 
-    base = cm.message(kinds=("async", "async", "async", "sync", "swapped"),
+    base = cm.message(kinds=("async", "async", "async", "sync", "swapped", "annret"),
                       outs=("ret", "ret", "ret", "ValueError", "MyErr", "KeyboardInterrupt", "SystemExit", "CancelledError",
                             "MyBase", "NoResult", "EmptyBatchError", "BadStrError", "TaskRejectedError"),
                       timeouts=(None, None, 0.3, 0.35, 1, "0.3", "1", 3, "3.0", 1.5, "2.5", 0, -1, "0"), acks=("sync",), durs=cm.DURS + [2.0])
